@@ -145,6 +145,11 @@ func c48ReadNodes(tr *trie.Trie) ([]c48Node, error) {
 }
 
 func c48ReadTruth(chain *core.BlockChain, root common.Hash) (*c48Truth, error) {
+	return c48ReadTruthOpt(chain, root, true)
+}
+
+// c48ReadTruthOpt: withNodes=false skips the collection of trie nodes (only leaves are needed for range requests).
+func c48ReadTruthOpt(chain *core.BlockChain, root common.Hash, withNodes bool) (*c48Truth, error) {
 	t := &c48Truth{root: root, byHash: map[common.Hash]int{}, storage: map[common.Hash][]c48Slot{}, stNodes: map[common.Hash][]c48Node{}}
 	tr, err := trie.New(trie.StateTrieID(root), chain.TrieDB())
 	if err != nil {
@@ -165,8 +170,10 @@ func c48ReadTruth(chain *core.BlockChain, root common.Hash) (*c48Truth, error) {
 	if it.Err != nil {
 		return nil, it.Err
 	}
-	if t.accNodes, err = c48ReadNodes(tr); err != nil {
-		return nil, err
+	if withNodes {
+		if t.accNodes, err = c48ReadNodes(tr); err != nil {
+			return nil, err
+		}
 	}
 	for _, a := range t.accts {
 		if a.acc.Root == types.EmptyRootHash {
@@ -185,8 +192,10 @@ func c48ReadTruth(chain *core.BlockChain, root common.Hash) (*c48Truth, error) {
 			return nil, sit.Err
 		}
 		t.storage[a.hash] = slots
-		if t.stNodes[a.hash], err = c48ReadNodes(st); err != nil {
-			return nil, err
+		if withNodes {
+			if t.stNodes[a.hash], err = c48ReadNodes(st); err != nil {
+				return nil, err
+			}
 		}
 	}
 	return t, nil
